@@ -115,12 +115,12 @@ def run(rep, tier):
         if d["kind"] == "end":
             variants = [16, 32, 64]
         if d["kind"] == "call":
-            variants = ["src0", "src1"]
+            variants = ["src0", "src1", "srcN"]      # srcN: the call kind left symbolic (kinds 2..15 must not be given a spelling of another kind)
         for var in variants:
             fields = {}
             if d["kind"] == "end":
                 fields["imm"] = T.K(32, var)
-            if d["kind"] == "call":
+            if d["kind"] == "call" and var != "srcN":
                 fields["src"] = T.K(8, 0 if var == "src0" else 1)
             outs = lm.run(v, fields=fields)
             key = "opc=%#04x%s" % (v, "" if var is None else "/%s" % var)
@@ -189,8 +189,11 @@ def run(rep, tier):
                             exp[fld] = T.K(w, 0)
                     if d["kind"] == "lddw":
                         exp["imm"] = ("v", "imm", 32)
+                    from props.c03 import eq_substitution
+                    fsub = eq_substitution(list(conds0))      # `field == K` facts of the disassembler's path
                     for fld, e in exp.items():
                         g = f.get(fld)
+                        e = fsub(e)
                         if g != e and not _same_under(g, e, list(conds2)):
                             problems.append("field %s: reassembled %s, original %s" % (fld, _sh(g), _sh(e)))
                     n_ok += 1
